@@ -91,34 +91,52 @@ package evidence
 //
 // Get/Set/delete are the store's view of its State prefix (rests on C09's State contracts: State.Get
 // never returns an error because ChainState.Get does not). Assumed, like balance.get/set.
-//@ assume func (*EvidenceStore).Get
+// The four raw accessors are VERIFIED against the State (`claims`: checked on the body, not handed to callers): the record of
+// key k lives under es.prefix ++ k; Set leaves exactly the given bytes there on success and writes nothing else, nothing on
+// failure; Get returns what is visible under that key; delete removes exactly that record. TRUSTED per clause: the reading
+// of those raw records as the typed ledgers evS / evV / evR / evT / evO (key families kfam / kid).
+//@ ghost func evRawKey(es *EvidenceStore, k bytes) string = str(es.prefix) + str(k)
+//@ func (*EvidenceStore).Get
+//@   assumes es != nil && es.state != nil && wfState(es.state)
 //@   modifies nothing
-//@   ensures err == nil && result0 == evGet(es, str(key))
+//@   trustframe
+//@   trusts err == nil && result0 == evGet(es, str(key))
+//@   claims err == nil && !old(exhausted(es.state.cache)) && vHas(es.state)[evRawKey(es, key)] ==> result0 == vVal(es.state)[evRawKey(es, key)]   // C19.raw-record
 
 //@ assume func (*EvidenceStore).GetVersioned
 //@   modifies nothing
 
-//@ assume func (*EvidenceStore).Set
+//@ func (*EvidenceStore).Set
+//@   assumes es != nil && es.state != nil && wfState(es.state)
 //@   modifies evS(es), evV(es), evR(es), evT(es), evO(es), vHas(es.state), vVal(es.state)
-//@   ensures evS(es) == ((err == nil && kfam(str(key)) == 1) ? old(evS(es))[kid(str(key)) := value] : old(evS(es)))
-//@   ensures evV(es) == ((err == nil && kfam(str(key)) == 2) ? old(evV(es))[kid(str(key)) := value] : old(evV(es)))
-//@   ensures evR(es) == ((err == nil && kfam(str(key)) == 3) ? old(evR(es))[kid(str(key)) := value] : old(evR(es)))
-//@   ensures evT(es) == ((err == nil && kfam(str(key)) == 4) ? value : old(evT(es)))
-//@   ensures (kfam(str(key)) >= 1 && kfam(str(key)) <= 4) ==> evO(es) == old(evO(es))
-//@   ensures forall k string :: k != str(key) ==> evO(es)[k] == old(evO(es))[k]
+//@   trustframe
+//@   trusts evS(es) == ((err == nil && kfam(str(key)) == 1) ? old(evS(es))[kid(str(key)) := value] : old(evS(es)))
+//@   trusts evV(es) == ((err == nil && kfam(str(key)) == 2) ? old(evV(es))[kid(str(key)) := value] : old(evV(es)))
+//@   trusts evR(es) == ((err == nil && kfam(str(key)) == 3) ? old(evR(es))[kid(str(key)) := value] : old(evR(es)))
+//@   trusts evT(es) == ((err == nil && kfam(str(key)) == 4) ? value : old(evT(es)))
+//@   trusts (kfam(str(key)) >= 1 && kfam(str(key)) <= 4) ==> evO(es) == old(evO(es))
+//@   trusts forall k string :: k != str(key) ==> evO(es)[k] == old(evO(es))[k]
+//@   assumes !tomb(value)                                                                       // A-NOTOMB a stored record is never the deletion marker
+//@   claims err == nil ==> vHas(es.state)[evRawKey(es, key)] && vVal(es.state)[evRawKey(es, key)] == value   // C19.raw-record
+//@   claims err == nil ==> forall k string :: k != evRawKey(es, key) ==> vHas(es.state)[k] == old(vHas(es.state))[k] && vVal(es.state)[k] == old(vVal(es.state))[k]   // C19.raw-record
+//@   claims err != nil ==> vHas(es.state) == old(vHas(es.state)) && vVal(es.state) == old(vVal(es.state))   // C19.raw-record
 
 // delete: the record reads as absent afterwards, or (D-09a, tombstone leak inside a block) as the tombstone marker
-//@ assume func (*EvidenceStore).delete
+//@ func (*EvidenceStore).delete
+//@   assumes es != nil && es.state != nil && wfState(es.state)
 //@   modifies evS(es), evV(es), evR(es), evT(es), evO(es), vHas(es.state), vVal(es.state)
-//@   ensures kfam(str(key)) != 1 ==> evS(es) == old(evS(es))
-//@   ensures kfam(str(key)) != 2 ==> evV(es) == old(evV(es))
-//@   ensures kfam(str(key)) != 3 ==> evR(es) == old(evR(es))
-//@   ensures kfam(str(key)) != 4 ==> evT(es) == old(evT(es))
-//@   ensures forall j string :: j != kid(str(key)) ==> evS(es)[j] == old(evS(es))[j] && evV(es)[j] == old(evV(es))[j] && evR(es)[j] == old(evR(es))[j]
-//@   ensures forall k string :: k != str(key) ==> evO(es)[k] == old(evO(es))[k]
-//@   ensures (kfam(str(key)) >= 1 && kfam(str(key)) <= 4) ==> evO(es) == old(evO(es))
+//@   trustframe
+//@   trusts kfam(str(key)) != 1 ==> evS(es) == old(evS(es))
+//@   trusts kfam(str(key)) != 2 ==> evV(es) == old(evV(es))
+//@   trusts kfam(str(key)) != 3 ==> evR(es) == old(evR(es))
+//@   trusts kfam(str(key)) != 4 ==> evT(es) == old(evT(es))
+//@   trusts forall j string :: j != kid(str(key)) ==> evS(es)[j] == old(evS(es))[j] && evV(es)[j] == old(evV(es))[j] && evR(es)[j] == old(evR(es))[j]
+//@   trusts forall k string :: k != str(key) ==> evO(es)[k] == old(evO(es))[k]
+//@   trusts (kfam(str(key)) >= 1 && kfam(str(key)) <= 4) ==> evO(es) == old(evO(es))
 // a deleted request no longer decodes (absent, or the tombstone marker which is not a serialised request); a failed delete changes nothing
-//@   ensures kfam(str(key)) == 3 ==> evR(es)[kid(str(key))] == old(evR(es))[kid(str(key))] || len(evR(es)[kid(str(key))]) == 0 || !deserok(evR(es)[kid(str(key))], "AllegationRequest")
+//@   trusts kfam(str(key)) == 3 ==> evR(es)[kid(str(key))] == old(evR(es))[kid(str(key))] || len(evR(es)[kid(str(key))]) == 0 || !deserok(evR(es)[kid(str(key))], "AllegationRequest")
+//@   claims result1 == nil && !old(exhausted(es.state.cache)) ==> !vHas(es.state)[evRawKey(es, key)]   // C19.raw-record
+//@   claims result1 == nil && !old(exhausted(es.state.cache)) ==> forall k string :: k != evRawKey(es, key) ==> vHas(es.state)[k] == old(vHas(es.state))[k]   // C19.raw-record
 
 // Key formats (fmt.Sprintf with constant formats is modelled by the engine, T-FMT): the exact text of every key is
 // VERIFIED on the builder's body; what stays trusted (`trusts`) is the classification of that text into a family
